@@ -443,6 +443,8 @@ func (r *renderer) holeText(h *SHole) string {
 			return set[it%len(set)]
 		case strings.HasSuffix(p, ".Name") || strings.HasSuffix(p, ".Name)"):
 			return fmt.Sprintf("T%d", it)
+		case strings.HasSuffix(p, ".Alias"):
+			return fmt.Sprintf("alias%d", it)
 		case strings.HasSuffix(p, ".GetCode()"):
 			if r.ts {
 				return "// prologue\n"
